@@ -45,6 +45,10 @@ type scroll struct {
 }
 
 func (d *Dynamic) SetCursor(c uint) {
+	if d.Builder != nil && d.Builder(c, d.cursor) == nil {
+		// there is no such item
+		return
+	}
 	d.cursor = c
 	d.ensureScroll()
 }
@@ -123,6 +127,16 @@ func (d *Dynamic) Draw(ctx vxfw.DrawContext) (vxfw.Surface, error) {
 	// initialize it to the scroll offset + any pending scroll we have. We
 	// negate it so that it is lines *above* the viewport.
 	//
+	// the items may have been replaced by fewer ones since the last draw
+	moved := false
+	for d.cursor > 0 && d.Builder(d.cursor, d.cursor) == nil {
+		d.cursor -= 1
+		moved = true
+	}
+	if moved {
+		d.ensureScroll()
+	}
+
 	ah := -(d.scroll.offset + d.scroll.pending)
 
 	// Now we can reset pending
@@ -231,7 +245,7 @@ func (d *Dynamic) Draw(ctx vxfw.DrawContext) (vxfw.Surface, error) {
 		idx := d.cursor - d.scroll.top
 
 		// If our cursor is within the list, we draw a cursor next to it
-		if int(idx) < len(s.Children) {
+		if d.cursor >= d.scroll.top && int(idx) < len(s.Children) {
 			ch := s.Children[idx]
 			// Create a surface for the cursor
 			cur := vxfw.NewSurface(ctx.Max.Width, ch.Surface.Size.Height, ch.Surface.Widget)
@@ -261,7 +275,7 @@ func (d *Dynamic) Draw(ctx vxfw.DrawContext) (vxfw.Surface, error) {
 	if d.scroll.wantsCursor {
 		idx := d.cursor - d.scroll.top
 		// Guaranteed we have drawn enough children from above
-		if int(idx) < len(s.Children) {
+		if d.cursor >= d.scroll.top && int(idx) < len(s.Children) {
 			ch := s.Children[idx]
 
 			// Define the bottom row
@@ -379,6 +393,9 @@ func (d *Dynamic) PrevItem() vxfw.Command {
 }
 
 func (d *Dynamic) ensureScroll() {
+	// moving the selection cancels a scroll that has not been drawn yet:
+	// it would move the selected item out of the viewport again
+	d.scroll.pending = 0
 	if d.cursor > d.scroll.top {
 		d.scroll.wantsCursor = true
 		return
